@@ -994,6 +994,52 @@ pub fn def(ctx: &Ctx) -> PropDef {
             },
             check_fresh,
         ));
+        // jump-heavy histories: 2-8 instances of ONE jump-capable type, half of them sharing their
+        // seed, histories dominated by jump / long_jump and long enough (hundreds to thousands of
+        // jumps) that unsynchronised threads are inside the same jump routine at the same moment;
+        // workers == 1 is the deterministic round-robin on one thread. Anything a jump routine
+        // keeps outside the instance (scratch buffer, memo of the last jump) shows here.
+        for ty in Ty::jumpers() {
+            subs.push(PSub::boxed(
+                format!("jump-heavy/{}", ty.name()),
+                t.pick(16, 400),
+                move || {
+                    let jop = prop_oneof![4 => Just(Op::Jump), 4 => Just(Op::LongJump), 1 => Just(Op::U64), 1 => Just(Op::U32)];
+                    let hist = prop_oneof![2 => proptest::collection::vec(jop.clone(), 1..=12), 3 => proptest::collection::vec(jop, 600..=2400)];
+                    (2usize..=8, any::<bool>(), prop_oneof![1 => Just(1usize), 2 => 2usize..=8], 0usize..=4)
+                        .prop_flat_map(move |(k, shared, workers, prefix)| {
+                            (proptest::collection::vec((gens::det_spec(ty, false), hist.clone()), k), Just(shared), Just(workers), Just(prefix)).prop_map(|(v, shared, workers, prefix)| {
+                                let first = v[0].clone();
+                                let instances = v
+                                    .into_iter()
+                                    .enumerate()
+                                    .map(|(i, (spec, ops))| {
+                                        if shared && i % 2 == 1 {
+                                            // twin of instance 0: same seed, the same first operations, then the
+                                            // OTHER kind of jump from the very same state, then its own history
+                                            let p = prefix.min(first.1.len().saturating_sub(1));
+                                            let mut o: Vec<Op> = first.1[..p].to_vec();
+                                            o.push(match first.1[p] {
+                                                Op::Jump => Op::LongJump,
+                                                _ => Op::Jump,
+                                            });
+                                            o.push(Op::U64);
+                                            o.extend(ops);
+                                            Instance { spec: first.0.clone(), ops: o, jops: Vec::new() }
+                                        } else {
+                                            Instance { spec, ops, jops: Vec::new() }
+                                        }
+                                    })
+                                    .collect::<Vec<_>>();
+                                let workers = workers.min(instances.len());
+                                FreeCase { instances, workers, repeats: 1 }
+                            })
+                        })
+                        .boxed()
+                },
+                check_free,
+            ));
+        }
         for part in 0..4 {
             subs.push(PSub::boxed(
                 format!("free-running/{}", part),
@@ -1005,7 +1051,7 @@ pub fn def(ctx: &Ctx) -> PropDef {
     }
     PropDef {
         id: "C19",
-        rule: "scenario = up to 6 generator instances (types drawn from the 19 deterministic types + scripted JitterRng, with deliberate repeats: identical twins, same seed with another history, same type with another seed; zero seeds; scripted JitterRng also with the round count new_with_timer starts with, after a real-clock JitterRng::new() earlier in the checker process; half of the JitterRng instances are driven through their whole public API (timer_stats, set_rounds, test_timer besides the output calls, with the number of timer readings consumed in the trace), a third of those on a timer that test_timer must reject; a dedicated fresh-process sub-check runs 2-4 such instances in one fresh child process against each alone in a fresh child process; construction is part of the history and happens on the scheduled thread) + a generated schedule of (instance, worker thread) pairs over 1..4 real OS threads: a coordinator hands the boxed generator and one operation to the scheduled worker and gets both back, so exactly one operation runs at a time and the interleaving, including migrations between threads, is the generated one. Oracle: every instance's trace equals its solo replay in a fresh thread, executed both before and after the interleaved run. Free-running mode: instances partitioned over 2..8 unsynchronised threads, repeated. Fresh-process mode: the traces of instances created and advanced round-robin inside the long-lived checker process (where thousands of other generators were created before) must equal the traces each instance produces alone in a freshly spawned child process, so process-wide lazily initialised state cannot hide; in half of these cases the whole scenario itself runs in a fresh child process of its own, so that its own construction order decides the initialisation order of anything process-wide (zero seeds are frequent here). Seed-pair enumeration: for one base seed per type and run, every seed that differs from it in exactly one or two bits (32 896 pairs for 32-byte seeds) is constructed right after the base seed\u{2019}s generator and must equal the same generator constructed after an unrelated one. Constructor pairs: the same key material (a 64-bit value in little-endian bytes, zero-padded or followed by generated bytes) handed back to back to two of from_seed / seed_from_u64 / from_rng, in both orders, against the same constructions made after unrelated instances. Cross-type pairs: the same 64-bit value (or the same leading seed bytes) handed to the same constructor route of two different generator types back to back. Nested construction: from_rng over a source that creates and uses another instance of the same type half-way through delivering the seed bytes, against the plain source. Nested timer: a JitterRng whose timer closure draws from another JitterRng on the same thread (inside the outer instance's collection) against the same instance over the plain scripted timer. Parallel construction: 2-8 threads constructing 8-48 generators of one type each at the same moment through all three routes, against the same constructions made alone. Static part: a probe crate asserting Send + Sync for every type is compiled against the current tree. Non-trivial = >= 2 instances of the same type advanced alternately and >= 1 thread migration; distinct by hash of the scenario.".into(),
+        rule: "scenario = up to 6 generator instances (types drawn from the 19 deterministic types + scripted JitterRng, with deliberate repeats: identical twins, same seed with another history, same type with another seed; zero seeds; scripted JitterRng also with the round count new_with_timer starts with, after a real-clock JitterRng::new() earlier in the checker process; half of the JitterRng instances are driven through their whole public API (timer_stats, set_rounds, test_timer besides the output calls, with the number of timer readings consumed in the trace), a third of those on a timer that test_timer must reject; a dedicated fresh-process sub-check runs 2-4 such instances in one fresh child process against each alone in a fresh child process; construction is part of the history and happens on the scheduled thread) + a generated schedule of (instance, worker thread) pairs over 1..4 real OS threads: a coordinator hands the boxed generator and one operation to the scheduled worker and gets both back, so exactly one operation runs at a time and the interleaving, including migrations between threads, is the generated one. Oracle: every instance's trace equals its solo replay in a fresh thread, executed both before and after the interleaved run. Free-running mode: instances partitioned over 2..8 unsynchronised threads, repeated. Jump-heavy mode: 2-8 instances of one jump-capable type, half of them sharing a seed, histories of up to 2 400 operations dominated by jump / long_jump, round-robin on one thread or free-running on up to 8. Fresh-process mode: the traces of instances created and advanced round-robin inside the long-lived checker process (where thousands of other generators were created before) must equal the traces each instance produces alone in a freshly spawned child process, so process-wide lazily initialised state cannot hide; in half of these cases the whole scenario itself runs in a fresh child process of its own, so that its own construction order decides the initialisation order of anything process-wide (zero seeds are frequent here). Seed-pair enumeration: for one base seed per type and run, every seed that differs from it in exactly one or two bits (32 896 pairs for 32-byte seeds) is constructed right after the base seed\u{2019}s generator and must equal the same generator constructed after an unrelated one. Constructor pairs: the same key material (a 64-bit value in little-endian bytes, zero-padded or followed by generated bytes) handed back to back to two of from_seed / seed_from_u64 / from_rng, in both orders, against the same constructions made after unrelated instances. Cross-type pairs: the same 64-bit value (or the same leading seed bytes) handed to the same constructor route of two different generator types back to back. Nested construction: from_rng over a source that creates and uses another instance of the same type half-way through delivering the seed bytes, against the plain source. Nested timer: a JitterRng whose timer closure draws from another JitterRng on the same thread (inside the outer instance's collection) against the same instance over the plain scripted timer. Parallel construction: 2-8 threads constructing 8-48 generators of one type each at the same moment through all three routes, against the same constructions made alone. Static part: a probe crate asserting Send + Sync for every type is compiled against the current tree. Non-trivial = >= 2 instances of the same type advanced alternately and >= 1 thread migration; distinct by hash of the scenario.".into(),
         explanation: None,
         assumptions: vec![
             "interleavings inside one operation are not enumerated (the crates contain no synchronisation primitives to instrument)".into(),
